@@ -387,8 +387,13 @@ func C16(p *core.Program, r *core.Report) {
 	// shutdown arm: callback calls Unregister
 	okUnreg := false
 	for _, cb := range mh.AnonFuncs {
-		if len(core.CallsTo(cb, claPkg+".Manager.Unregister")) > 0 {
-			okUnreg = true
+		// Unregister, unregisterConvergence or a helper of it that deactivates the element
+		for _, nm := range []string{".Manager.Unregister", ".Manager.unregisterConvergence", ".Manager.unregisterConvergenceLocked"} {
+			for _, c := range core.CallsTo(cb, claPkg+nm) {
+				if callee := core.Callee(c); callee != nil && len(core.CallsToWithHelpers(callee, claPkg+".convergenceElem.deactivate", 40)) > 0 {
+					okUnreg = true
+				}
+			}
 		}
 	}
 	r.Check(okUnreg, "shutdown/"+fname(mh)+"/unregister-all", "closing the manager unregisters (deactivates) every registered element", p.Pos(mh.Pos()), "", "no Range callback calls Unregister")
@@ -469,7 +474,11 @@ func C16(p *core.Program, r *core.Report) {
 						return false
 					}
 					n := core.CalleeName(c)
-					return core.NameIs(n, claPkg+".Manager.unregisterConvergence") || core.NameIs(n, claPkg+".Manager.Unregister") || core.NameIs(n, claPkg+".convergenceElem.deactivate")
+					if core.NameIs(n, claPkg+".Manager.unregisterConvergence") || core.NameIs(n, claPkg+".Manager.Unregister") || core.NameIs(n, claPkg+".convergenceElem.deactivate") {
+						return true
+					}
+					callee := core.Callee(c)
+					return callee != nil && core.IsRepo(callee) && callee.Pkg == rc.Pkg && len(core.CallsToWithHelpers(callee, claPkg+".convergenceElem.deactivate", 40)) > 0
 				}
 				if stops(first) {
 					okStop = true
@@ -494,6 +503,10 @@ func C16(p *core.Program, r *core.Report) {
 
 	checkRegistryKeys(p, r)
 	checkReportChannelNeverClosed(p, r)
+	checkRemovalSerialisedWithRegistration(p, r)
+	nRestartable := checkRestartableAdapters(p, r)
+	r.Min("channels closed by an adapter on its way down", 3)
+	r.Count("channels closed by an adapter on its way down", nRestartable)
 	checkLockOrder(p, r, claPkg, mtcpPkg, bbcPkg, "pkg/cla/tcpclv4", utilsPkg, "pkg/cla/tcpclv4/internal/stages", agentPkg, routingPkg, storagePkg, discPkg, bp7)
 	nWait := 0
 	for _, rel := range []string{claPkg, mtcpPkg, bbcPkg, "pkg/cla/tcpclv4", utilsPkg, "pkg/cla/tcpclv4/internal/stages", agentPkg, routingPkg, discPkg} {
@@ -505,6 +518,14 @@ func C16(p *core.Program, r *core.Report) {
 
 	// unregisterConvergence: deactivate precedes Delete, same instance
 	uc := p.Func(claPkg, "Manager", "unregisterConvergence")
+	// the body may live in a helper that the locking wrapper calls
+	if len(core.CallsTo(uc, "sync.Map.Delete"))+len(core.CallsTo(uc, "sync.Map.LoadAndDelete")) == 0 {
+		for _, h := range core.WithHelpers(uc, 40) {
+			if h != uc && len(core.CallsTo(h, "sync.Map.Delete"))+len(core.CallsTo(h, "sync.Map.LoadAndDelete")) > 0 {
+				uc = h
+			}
+		}
+	}
 	nU := 0
 	var removals []ssa.CallInstruction
 	removals = append(removals, core.CallsTo(uc, "sync.Map.Delete")...)
@@ -1168,4 +1189,176 @@ func checkLockOrder(p *core.Program, r *core.Report, pkgs ...string) int {
 	r.Analysed["lock_order_edges"] = len(edges)
 	r.Check(len(cyc) == 0, "lock-order/acyclic", "the order in which the mutexes of the daemon are taken while another one is held is acyclic (held -> acquired, through static calls)", "", fmt.Sprintf("%d ordered pairs", len(edges)), "cycle through: "+strings.Join(cyc, "; "))
 	return len(edges)
+}
+
+// checkRestartableAdapters: the Manager restarts an adapter by Close() followed by Start() on the same object (Restart,
+// and the retry of an element that was stopped). A channel field that the adapter closes on its way down must therefore
+// be created anew by Start: the old, closed stop channel would stop the restarted adapter at once, and closing the
+// already closed channels panics ("close of closed channel") in a goroutine of the daemon.
+func checkRestartableAdapters(p *core.Program, r *core.Report) int {
+	n := 0
+	for _, named := range p.Implementations(claPkg, "Convergence") {
+		start := p.MethodOf(named, "Start")
+		if start == nil || start.Blocks == nil {
+			continue
+		}
+		st := derefStructOf(named)
+		if st == nil {
+			continue
+		}
+		closed := map[string]string{}
+		for _, fn := range p.RepoFuncs() {
+			if fn.Blocks == nil || fn.Pkg == nil || fn.Pkg.Pkg != named.Obj().Pkg() {
+				continue
+			}
+			core.EachInstr(fn, func(in ssa.Instruction) {
+				c, ok := in.(*ssa.Call)
+				if !ok {
+					return
+				}
+				if b, isB := c.Common().Value.(*ssa.Builtin); !isB || b.Name() != "close" {
+					return
+				}
+				ld, ok := core.Strip(c.Common().Args[0]).(*ssa.UnOp)
+				if !ok {
+					return
+				}
+				if owner, f, ok := core.FieldOwner(ld.X); ok && owner == named {
+					closed[f] = p.Pos(in.Pos())
+				}
+			})
+		}
+		for f, where := range closed {
+			n++
+			made := false
+			for _, g := range core.WithHelpers(start, 40) {
+				core.EachInstr(g, func(in ssa.Instruction) {
+					s, ok := in.(*ssa.Store)
+					if !ok {
+						return
+					}
+					if owner, ff, ok := core.FieldOwner(s.Addr); ok && owner == named && ff == f {
+						if _, isMk := s.Val.(*ssa.MakeChan); isMk {
+							made = true
+						}
+					}
+				})
+			}
+			r.Check(made, "restart/"+fname(start)+"/recreates-"+f, "a channel the adapter closes when it is stopped is created anew by Start (the Manager restarts the same object)", p.Pos(start.Pos()), "closed at "+where, "channel "+f+" (closed at "+where+") is only created by the constructor: after one stop, a second Start runs on closed channels - the new goroutine stops at once and closes them again: panic 'close of closed channel'")
+		}
+	}
+	return n
+}
+
+// checkRemovalSerialisedWithRegistration (audit 4): "deactivate the element, then delete it by key" and "activate the
+// element, then delete it by key if it shall not be retried" are two steps on the registry. A registration of the same
+// address between the two finds the inactive element, starts it and stores it - and is then deleted although it runs
+// (started, not listed, started again by the next registration, not stopped by Close). Every removal of an element from
+// the registry lies in a region of the registerMutex (held locally, at the call that runs the callback, or by every
+// caller); the shutdown arm is exempt, after it registrations clean up themselves (closed-while-starting).
+func checkRemovalSerialisedWithRegistration(p *core.Program, r *core.Report) {
+	const mtx = "pkg/cla.Manager.registerMutex"
+	mh := p.Func(claPkg, "Manager", "handler")
+	locks := map[*ssa.Function]*core.LockSets{}
+	ls := func(f *ssa.Function) *core.LockSets {
+		if locks[f] == nil {
+			locks[f] = core.ComputeLockSets(f)
+		}
+		return locks[f]
+	}
+	// the instruction of the enclosing function at which closure cl is handed to a call (its callback site)
+	callbackSite := func(cl *ssa.Function) ssa.CallInstruction {
+		par := cl.Parent()
+		if par == nil {
+			return nil
+		}
+		var site ssa.CallInstruction
+		core.EachInstr(par, func(in ssa.Instruction) {
+			c, ok := in.(ssa.CallInstruction)
+			if !ok {
+				return
+			}
+			for _, a := range c.Common().Args {
+				if mc, ok := a.(*ssa.MakeClosure); ok && mc.Fn == ssa.Value(cl) {
+					site = c
+				}
+				if f, ok := a.(*ssa.Function); ok && f == cl {
+					site = c
+				}
+			}
+		})
+		return site
+	}
+	inStopArm := func(in ssa.Instruction) bool {
+		if in.Parent() != mh {
+			return false
+		}
+		for _, cd := range core.DominatingConds(in.Block()) {
+			b, ok := cd.V.(*ssa.BinOp)
+			if !ok || b.Op != token.EQL || !cd.True {
+				continue
+			}
+			ex, isEx := b.X.(*ssa.Extract)
+			if !isEx || ex.Index != 0 {
+				continue
+			}
+			sel, isSel := ex.Tuple.(*ssa.Select)
+			k, isC := core.ConstInt(b.Y)
+			if isSel && isC && int(k) < len(sel.States) && pathEndsWith(sel.States[k].Chan, "stopSyn") {
+				return true
+			}
+		}
+		return false
+	}
+	var heldAt func(in ssa.Instruction, depth int) bool
+	heldAt = func(in ssa.Instruction, depth int) bool {
+		fn := in.Parent()
+		if _, ok := ls(fn).Held(in, mtx, true); ok {
+			return true
+		}
+		if inStopArm(in) {
+			return true
+		}
+		if depth > 4 {
+			return false
+		}
+		if fn.Parent() != nil {
+			if site := callbackSite(fn); site != nil {
+				return heldAt(site, depth+1)
+			}
+			return false
+		}
+		sites := allCallSites(p, core.FuncName(fn))
+		n := 0
+		for _, cs := range sites {
+			if core.Callee(cs) != fn {
+				continue
+			}
+			n++
+			if _, isGo := cs.(*ssa.Go); isGo {
+				return false
+			}
+			if !heldAt(cs, depth+1) {
+				return false
+			}
+		}
+		return n > 0
+	}
+	n := 0
+	for _, fn := range p.RepoFuncs() {
+		if fn.Pkg != p.Pkg(claPkg) || fn.Blocks == nil {
+			continue
+		}
+		for _, name := range []string{"sync.Map.Delete", "sync.Map.LoadAndDelete"} {
+			for _, d := range core.CallsTo(fn, name) {
+				if !core.IsField(core.CallRecv(d), claPkg, "Manager", "convs") {
+					continue
+				}
+				n++
+				r.Check(heldAt(d, 0), "unregister/"+fname(fn)+"/removal-serialised-with-registration", "an element is removed from the registry under the registerMutex, in one region with the deactivation/activation that precedes it (no registration of the same address can re-activate it in between); only the shutdown arm is exempt", p.Pos(d.Pos()), "", "the removal is not serialised with registerConvergence: a Register between 'deactivate' and 'Delete' re-activates the element, which is then deleted while running - started but not listed, started once more by the next registration, not stopped by Close")
+			}
+		}
+	}
+	r.Min("removals from the adapter registry", 2)
+	r.Count("removals from the adapter registry", n)
 }
